@@ -10,7 +10,7 @@ std::string harness_run()
   sim::pthread_model_reset();
   sim::clock_reset();
   RunCfg rc;
-  rc.w = wc::draw_cfg(3, 2, false);
+  rc.w = sim::thorough() ? wc::draw_cfg(4, 2, false) : wc::draw_cfg(3, 2, false);
   rc.solver = int(sim::cfg_weighted("solver", {4, 2, 2, 1}));
   rc.cycle = int(sim::cfg_weighted("cycle", {3, 1, 2}));
   rc.wait_order = int(sim::cfg_int("wait_order", 0, 1));
